@@ -292,6 +292,10 @@ func (tf tFiles) newIndexIterator(tops *tOps, icmp *iComparer, slice *util.Range
 		} else {
 			limit = tf.Len()
 		}
+		if limit < start {
+			// Start lies behind Limit: an empty range.
+			limit = start
+		}
 		tf = tf[start:limit]
 	}
 	return iterator.NewArrayIndexer(&tFilesArrayIndexer{
